@@ -859,4 +859,96 @@ def fixupLoopT (size : U32) : Nat → U32 → Option U32
 def TRing.writeC {α : Type} (t : TRing α) (d : List α) : Option (TRing α × Nat) :=
   (ringWrite t.r t.buf (d.take (d.length % 2 ^ 32))).map fun (r', b', k) => (⟨r', b'⟩, k)
 
+/-! ## round 3b: the two ways the repaired `push` / `emplace` can still leave the
+head slot without a living object -/
+
+namespace VRing
+variable {α : Type}
+
+/-- `emplace(args)` whose argument IS the head slot (`r.emplace(r.head_place())`):
+`place->~T(); new (place) T(*place); ring_move_head_one(&r);` — `emplace` has no
+aliasing test (`push` has): the copy constructor reads the object that has just
+been destroyed.  The bytes are still there: the value of the slot is kept. -/
+def emplaceSelf (v : VRing α) : Option (VRing α) :=
+  let h := v.t.r.head.toNat
+  if h < v.t.buf.length then
+    let w := v.destruct h
+    let w := { w with deadRead := w.deadRead + (if w.live.getD h false then 0 else 1) }
+    some { w.construct h with t := { v.t with r := ringMoveHeadOne v.t.r } }
+  else none
+
+/-- `push(obj)` whose copy constructor `T(obj)` throws: `place->~T();` has run,
+`new (place) T(obj)` has constructed nothing, `ring_move_head_one` is not reached. -/
+def pushThrow (v : VRing α) : Option (VRing α) :=
+  let h := v.t.r.head.toNat
+  if h < v.t.buf.length then some (v.destruct h) else none
+
+end VRing
+
+/-! ## round 3b: igris/container/unbounded_array.h — the members the containers do
+not use (`fill`, `clear`, `begin`/`end`, `operator=` incl. self-assignment), with
+the same ledger as `VRing` -/
+
+/-- `unbounded_array<T>`: `m_data[0 .. m_size)` as a list (`m_size` = its length),
+`live` = which slots hold a living object, constructor / destructor calls, and the
+forbidden events: destructor on a dead slot, assignment to a dead slot -/
+structure UArr (α : Type) where
+  data : List α
+  live : List Bool
+  ctor : Nat
+  dtor : Nat
+  deadDtor : Nat
+  deadAssign : Nat
+
+namespace UArr
+variable {α : Type}
+
+/-- `unbounded_array(size_t sz)`: `sz` value-initialised elements -/
+def mk' (dflt : α) (sz : Nat) : UArr α :=
+  { data := List.replicate sz dflt, live := List.replicate sz true, ctor := sz, dtor := 0,
+    deadDtor := 0, deadAssign := 0 }
+
+/-- `begin()` / `end()` as element offsets from `m_data`: `m_data`, `m_data + m_size` -/
+def iterBegin (_ : UArr α) : Nat := 0
+def iterEnd (a : UArr α) : Nat := a.data.length
+
+/-- `fill(val)`: `for (auto &ref : *this) ref = val;` — the range-for: an iterator
+runs from `begin()` until it EQUALS `end()`; each step assigns through it (`none` =
+the store is outside the array, or the loop is still running when the fuel is used up) -/
+def fillLoop (val : α) : Nat → Nat → UArr α → Option (UArr α)
+  | 0, it, a => if it = a.iterEnd then some a else none
+  | fuel + 1, it, a =>
+    if it = a.iterEnd then some a
+    else match poke a.data it val with
+      | none => none
+      | some d => fillLoop val fuel (it + 1)
+          { a with data := d, deadAssign := a.deadAssign + (if a.live.getD it false then 0 else 1) }
+
+def fill (a : UArr α) (val : α) : Option (UArr α) := fillLoop val a.data.length a.iterBegin a
+
+/-- `invalidate()`: `~T()` on every slot, `deallocate`, `m_data = nullptr; m_size = 0;` -/
+def invalidate (a : UArr α) : UArr α :=
+  { a with data := [], live := [], dtor := a.dtor + a.live.length,
+           deadDtor := a.deadDtor + LRing.deadCount a.live }
+
+/-- `clear()`: `invalidate();` -/
+def clear (a : UArr α) : UArr α := a.invalidate
+
+/-- `resize(size)`: `invalidate(); create_buffer(size);` -/
+def resize (dflt : α) (a : UArr α) (sz : Nat) : UArr α :=
+  let w := a.invalidate
+  { w with data := List.replicate sz dflt, live := List.replicate sz true, ctor := w.ctor + sz }
+
+/-- `operator=(const unbounded_array &oth)`: `if (this == &oth) return *this; invalidate();
+m_data = alloc.allocate(oth.size()); m_size = oth.size(); copy-construct every element`.
+`src = none`: the argument is `*this`. -/
+def assign (a : UArr α) (src : Option (List α)) : UArr α :=
+  match src with
+  | none => a
+  | some s =>
+    let w := a.invalidate
+    { w with data := s, live := List.replicate s.length true, ctor := w.ctor + s.length }
+
+end UArr
+
 end Igris.C03
